@@ -273,7 +273,15 @@ fn gen_c12(r: &mut Rng) -> Vec<Op> {
         ctors.push(*r.pick(ctor::HDR_SLOT_CTORS));
     }
     let n_builders = if r.chance(1, 6) { 2 } else { 1 };
-    let n_sets = if ctors.is_empty() { 0 } else { r.below(21) as usize };
+    // mostly short; one history in ten keeps overriding slots for a long time
+    // (every slot is single-valued, so only the last call of each may count)
+    let n_sets = if ctors.is_empty() {
+        0
+    } else if r.chance(1, 10) {
+        r.range(21, 120) as usize
+    } else {
+        r.below(21) as usize
+    };
     let mut ops = Vec::new();
     for b in 0..n_builders {
         ops.push(Op::new(OpKind::HdrNew, vec![b, r.below(2)], vec![]));
